@@ -169,6 +169,53 @@ theorem terminated_names_fired_limits (c : Config α) {source : Nat} {target : O
 theorem termination_never_unexplained (m : TermM) (sz it : Nat) : m.test sz it ≠ .error .internal :=
   test_ne_internal m sz it
 
+/-- membership in the kinds a combined model names -/
+theorem explainList_mem (sz it : Nat) (k : TermKind) :
+    ∀ (ms : List TermM) (m : TermM), m ∈ ms → k ∈ m.explain sz it →
+      k ∈ TermM.explain.explainList ms sz it
+  | [], _, h, _ => by cases h
+  | m' :: ms, m, h, hk => by
+    simp only [TermM.explain.explainList, List.mem_append]
+    rcases List.mem_cons.1 h with rfl | h
+    · exact Or.inl hk
+    · exact Or.inr (explainList_mem sz it k ms m h hk)
+
+/-- a limit of the model that fires is named by `explain_termination` -/
+theorem fired_leaf_is_named {l m : TermM} (hl : Leaf l m) (sz it : Nat)
+    (hf : l.fires sz it = some true) : kindOf l ∈ m.explain sz it := by
+  induction hl with
+  | runtime l f b p => simp [TermM.explain, hf, kindOf]
+  | size l => simp [TermM.explain, hf, kindOf]
+  | iters l => simp [TermM.explain, hf, kindOf]
+  | combined hm _ ih =>
+    simp only [TermM.explain]
+    exact explainList_mem sz it _ _ _ hm (ih hf)
+
+/-- the converse of `terminated_names_fired_limits` ("every named limit fired"): **every limit that
+fired is named** — together: the explicit `terminated` error names exactly the kinds of the limits of
+the model that fire at that loop head -/
+theorem terminated_names_every_fired_limit (m : TermM) (sz it : Nat) {ks : List TermKind}
+    (h : m.test sz it = .error (.terminated ks)) {l : TermM} (hl : Leaf l m)
+    (hf : l.fires sz it = some true) : kindOf l ∈ ks := by
+  have hk := fired_leaf_is_named hl sz it hf
+  unfold TermM.test at h
+  split at h
+  · cases h
+  · cases h
+  · split at h
+    · cases h
+    · injection h with h
+      injection h with h
+      rw [← h]; exact hk
+
+/-- non-vacuity: a nested model in which two limits fire and one stays silent -/
+example : (TermM.combined [.iters 0, .size 100, .combined [.size 0]]).test 1 0 =
+      .error (.terminated [.iterations, .size]) ∧
+    TermKind.iterations ∈ [TermKind.iterations, TermKind.size] := by
+  refine ⟨by decide, ?_⟩
+  exact terminated_names_every_fired_limit (.combined [.iters 0, .size 100, .combined [.size 0]]) 1 0
+    (by decide) (Leaf.combined (by simp) (Leaf.iters 0)) (by decide)
+
 /-- Whenever a search returns under limits its result is identical to the unlimited result … -/
 theorem limited_result_is_unlimited_result (c : Config α) {source : Nat} {target : Option Nat}
     {sched : List Nat} {r : SearchResult α}
@@ -349,9 +396,11 @@ theorem fixAll_error_internal (fix : List (Branch α) → Except ErrKind (List (
         exact fixAll_error_internal fix hfix rest _ hfa
       | ok b => simp only [hfx, hfa] at h; cases h
 
-/-- A `terminated` outcome of the wrapper is the `terminated` outcome of its inner search, handed on
-unchanged (so it names the limits that fired, `terminated_names_fired_limits`): the wrapper never
-turns a limit hit into a route, a tree or "no path", and has no limit of its own. -/
+/-- A `terminated` outcome of the wrapper is the `terminated` outcome of a vertex-oriented search on the
+same schedule, handed on unchanged (so it names the limits that fired,
+`terminated_names_fired_limits`): the wrapper never turns a limit hit into a route, a tree or
+"no path", and has no limit of its own.  Which search — its inner search, from the origin edge's head —
+is `edge_oriented_terminated_from_inner`. -/
 theorem edge_oriented_terminated_from_search (c : Config α) {source : Nat} {target : Option Nat}
     {sched : List Nat} {ks : List TermKind}
     (h : c.runEdge source target sched = .error (.terminated ks)) :
@@ -423,6 +472,73 @@ section
 open SearchLimits SearchTermination
 variable {α : Type} [Field α] [LinearOrder α] [IsStrictOrderedRing α] [Lit α] [LawfulLit α]
 
+
+/-- `edge_oriented_terminated_from_search` with the inner search **named** instead of `∃ s t`: a
+`terminated` outcome of the wrapper is the outcome of the search from the origin edge's head — without
+destination, or to the destination edge's tail when the two edges are distinct and not adjacent (the
+only arms that run a search) -/
+theorem edge_oriented_terminated_from_inner (c : Config α) {source : Nat} {target : Option Nat}
+    {sched : List Nat} {ks : List TermKind}
+    (h : c.runEdge source target sched = .error (.terminated ks)) :
+    ∃ e1, c.edges[source]? = some e1 ∧
+      ((target = none ∧ c.runVertex e1.dst none sched = .error (.terminated ks)) ∨
+       ∃ tgt e2, target = some tgt ∧ c.edges[tgt]? = some e2 ∧ source ≠ tgt ∧ e1.dst ≠ e2.src ∧
+         c.runVertex e1.dst (some e2.src) sched = .error (.terminated ks)) := by
+  have hC := config_components_not_terminated ({ c with reverse := false } : Config α)
+  unfold Config.runEdge at h
+  simp only at h
+  cases he : c.edges[source]? with
+  | none => simp only [he] at h; cases h
+  | some e1 =>
+    simp only [he] at h
+    refine ⟨e1, rfl, ?_⟩
+    cases target with
+    | none =>
+      simp only at h
+      cases hr : c.runVertex e1.dst none sched with
+      | error k => simp only [hr] at h; cases h; exact Or.inl ⟨rfl, rfl⟩
+      | ok r' => simp only [hr] at h; cases h
+    | some tgt =>
+      simp only at h
+      cases he2 : c.edges[tgt]? with
+      | none => simp only [he2] at h; cases h
+      | some e2 =>
+        simp only [he2] at h
+        by_cases hst : source = tgt
+        · simp only [hst, if_true] at h; cases h
+        · simp only [hst, if_false] at h
+          by_cases hadj : e1.dst = e2.src
+          · simp only [hadj, if_true] at h
+            split at h
+            · rename_i k hk
+              cases h
+              exact absurd hk (hC.trav source none (initialState c.feats) ks)
+            · rename_i ac1 tc1 st1 _
+              split at h
+              · rename_i k hk
+                cases h
+                exact absurd hk (hC.trav tgt (some source) st1 ks)
+              · cases h
+          · simp only [hadj, if_false] at h
+            cases hr : c.runVertex e1.dst (some e2.src) sched with
+            | error k =>
+              simp only [hr] at h; cases h
+              exact Or.inr ⟨tgt, e2, rfl, he2, hst, hadj, hr⟩
+            | ok r' =>
+              simp only [hr] at h
+              exfalso
+              split at h
+              · cases h
+              · split at h
+                · rename_i k hk
+                  cases h
+                  have hfix := fixAll_error_internal _ (fun rt k' hf => by
+                    split at hf
+                    · cases hf; rfl
+                    · cases hf) _ _ hk
+                  cases hfix
+                · cases h
+
 /-- PROGRESS.  At every loop head a run can reach — any configuration, weight factor, schedule so
 far — a non-empty frontier has an entry of minimal priority: some pop is accepted, the search is
 never stuck. -/
@@ -439,6 +555,42 @@ theorem exhausted_means_accepted_unfinished (c : Config α) {source : Nat} {targ
       ∃ h, Reach c.inst source target sched s h ∧ c.term.test h.solSize h.iters = .ok () ∧
         h.queue.isEmpty = false :=
   exhausted_iff_reach (config_noSchedErr c) sched s
+
+/-- with the time budget exhausted from iteration `i₀` on, no loop head beyond `nextCheck freq i₀` is
+ever reached — by a run that returns or by one that does not -/
+theorem reach_le_nextCheck {I : Inst α} {freq i₀ : Nat} (hf : 0 < freq)
+    (hR : RuntimeLimit I freq i₀) {source : Nat} {target : Option Nat} {pre : List Nat}
+    {s h : SState α} (hr : Reach I source target pre s h) (hs : s.iters ≤ nextCheck freq i₀) :
+    h.iters ≤ nextCheck freq i₀ := by
+  obtain ⟨h1, h2, _⟩ := nextCheck_spec hf i₀
+  induction hr with
+  | here s => exact hs
+  | @turn v rest s0 s1 h' ht _ ih =>
+    apply ih
+    have hne : ¬ (s0.iters = nextCheck freq i₀) := by
+      intro heq
+      obtain ⟨k, hk⟩ := hR s0.solSize s0.iters (heq ▸ h1) (heq ▸ h2)
+      rw [ht.term_ok] at hk; cases hk
+    have := ht.counters.1
+    omega
+
+/-- **loop-level form of "an exhausted budget stops at the next scheduled check"**: the runtime
+theorems above speak of returned results (`hrun : … = .ok s`); this one of the loop itself — every
+accepted, unfinished schedule (`scheduleExhausted`) has at most `nextCheck freq i₀` pops, so no
+schedule, whatever ties it breaks, carries the search past that check -/
+theorem runtime_unfinished_schedule_within_next_check (c : Config α)
+    {limitNs freq baseNs perNs i₀ : Nat}
+    (hl : Leaf (.runtime limitNs freq baseNs perNs) c.term) (hf : 0 < freq)
+    (hex : ∀ i, i₀ ≤ i → limitNs < baseNs + perNs * i) {source : Nat} {target : Option Nat}
+    {f0 : α} {sched : List Nat}
+    (h : runLoop c.inst source target sched (initState source f0) = .error .scheduleExhausted) :
+    sched.length ≤ nextCheck freq i₀ := by
+  obtain ⟨hd, hr, _, _⟩ := (exhausted_means_accepted_unfinished c sched _).1 h
+  have := reach_le_nextCheck hf (runtimeLimit_of_leaf (I := c.inst) rfl hl hex) hr
+    (by simp [initState])
+  have hc := hr.counters.1
+  simp [initState] at hc
+  omega
 
 /-- TERMINATION, Dijkstra (`weight_factor = 0`), no limit needed.  Any traversal, access (turn
 delays), cost, frontier (turn restrictions) and termination model, forward or reverse, with or
@@ -481,8 +633,13 @@ theorem consistent_astar_search_terminates (c : Config α) (hadj : c.AdjConsiste
 
 /-- … which holds of the configuration's own estimate under the premises of C02's
 `estimate_admissible`: distance model on a metrically consistent great-circle table, weight factor
-in `[0, 1]` … -/
-theorem astar_distance_search_terminates (c : Config α) (h : c.EdgeLocal) {du : DistanceUnit}
+in `[0, 1]`.  `_partial`: restricted to **`Config.EdgeLocal`** configurations — consistent adjacency,
+**no access model and no turn-restriction frontier model** — because only there is the estimate the
+vertex function `hOf` and the cost charged the edge function `costOf` (with turn delays the charge
+depends on the previous edge and consistency of the estimate is not a statement about edges).
+Termination itself is not lost outside the restriction: `astar_search_terminates` (any models, any
+estimate) covers every other configuration, with the exponential bound instead of `|V| + 1`. -/
+theorem astar_distance_search_terminates_partial (c : Config α) (h : c.EdgeLocal) {du : DistanceUnit}
     {t : Nat} (M : c.DistanceMetric du t) {source : Nat} (hsrc : source < c.nV)
     (hV : c.VerticesBelow c.nV) :
     (∃ sched, sched.length ≤ c.nV + 1 ∧ Ended (c.runVertex source (some t) sched)) ∧
@@ -492,8 +649,10 @@ theorem astar_distance_search_terminates (c : Config α) (h : c.EdgeLocal) {du :
     ∀ sched r, c.runVertex source (some t) sched = .ok r → r.iterations ≤ c.nV :=
   config_astar_distance_terminates c h M hsrc hV
 
-/-- … and speed-table model (`Config.SpeedMetric`) -/
-theorem astar_speed_search_terminates (c : Config α) (h : c.EdgeLocal)
+/-- … and speed-table model (`Config.SpeedMetric`); `_partial` for the same reason: restricted to
+`Config.EdgeLocal` (no access model, no turn-restriction model), the general `astar_search_terminates`
+covers the rest -/
+theorem astar_speed_search_terminates_partial (c : Config α) (h : c.EdgeLocal)
     {su : SpeedUnit} {du : DistanceUnit} {tu : TimeUnit} {ms : α} {table : List α} {t : Nat}
     (M : c.SpeedMetric su du tu ms table t) {source : Nat} (hsrc : source < c.nV)
     (hV : c.VerticesBelow c.nV) :
@@ -555,6 +714,62 @@ example : ∃ sched, Ended (exA.runVertex 0 (some 3) sched) :=
   let ⟨⟨sched, _, h⟩, _⟩ := astar_search_terminates exA exA_edgeLocal.adj (source := 0) (by decide)
     (by decide) (some 3)
   ⟨sched, h⟩
+
+/-- `exC` under a runtime limit: 1000 ns, checked every second iteration, 600 ns per iteration -/
+def exRt : Config ℚ := { exC with term := .runtime 1000 2 0 600 }
+
+def loopErrOf (r : Except ErrKind (SState ℚ)) : Option ErrKind :=
+  match r with
+  | .ok _ => none
+  | .error k => some k
+
+/-- `runtime_unfinished_schedule_within_next_check` on `exRt`: the budget is exhausted from iteration 2
+on, the next check is at iteration 2, an accepted unfinished schedule exists (`[0]`) and none has more
+than 2 pops -/
+example : (∃ sched, sched ≠ [] ∧
+      runLoop exRt.inst 0 (some 3) sched (initState 0 0) = .error .scheduleExhausted) ∧
+    ∀ sched, runLoop exRt.inst 0 (some 3) sched (initState 0 0) = .error .scheduleExhausted →
+      sched.length ≤ 2 := by
+  refine ⟨⟨[0], by simp, ?_⟩, ?_⟩
+  · have h : loopErrOf (runLoop exRt.inst 0 (some 3) [0] (initState 0 0)) =
+        some .scheduleExhausted := by decide +kernel
+    cases hr : runLoop exRt.inst 0 (some 3) [0] (initState 0 0) with
+    | ok s => rw [hr] at h; simp [loopErrOf] at h
+    | error k => rw [hr] at h; simp only [loopErrOf, Option.some.injEq] at h; rw [h]
+  · intro sched h
+    have := runtime_unfinished_schedule_within_next_check exRt (i₀ := 2)
+      (SearchLimits.Leaf.runtime 1000 2 0 600) (by decide) (by intro i hi; omega) h
+    simpa [SearchLimits.nextCheck] using this
+
+/-- `edge_oriented_terminated_from_inner` on `exC` under iterations limit 0, from edge 0 (0→1) to edge 2
+(2→3): the wrapper's `terminated [iterations]` is that of the search from vertex 1 to vertex 2 -/
+example : ∃ e1 e2, ({ exC with term := .iters 0 } : Config ℚ).edges[0]? = some e1 ∧
+    ({ exC with term := .iters 0 } : Config ℚ).edges[2]? = some e2 ∧
+    ({ exC with term := .iters 0 } : Config ℚ).runVertex e1.dst (some e2.src) [] =
+      .error (.terminated [.iterations]) := by
+  have h : errOf (({ exC with term := .iters 0 } : Config ℚ).runEdge 0 (some 2) []) =
+      some (.terminated [.iterations]) := by decide +kernel
+  cases hr : ({ exC with term := .iters 0 } : Config ℚ).runEdge 0 (some 2) [] with
+  | ok r => rw [hr] at h; simp [errOf] at h
+  | error k =>
+    rw [hr] at h
+    simp only [errOf, Option.some.injEq] at h
+    subst h
+    obtain ⟨e1, he1, ⟨hn, _⟩ | ⟨tgt, e2, ht, he2, _, _, hrun⟩⟩ :=
+      edge_oriented_terminated_from_inner _ hr
+    · cases hn
+    · cases ht
+      exact ⟨e1, e2, he1, he2, hrun⟩
+
+/-- the two `_partial` theorems on `exA` (distance model) and `exSA` (speed-table model): edge-local
+configurations with metrically consistent tables -/
+example : ∃ sched, sched.length ≤ exA.nV + 1 ∧ Ended (exA.runVertex 0 (some 3) sched) :=
+  (astar_distance_search_terminates_partial exA exA_edgeLocal exA_metric (source := 0) (by decide)
+    (by decide)).1
+
+example : ∃ sched, sched.length ≤ exSA.nV + 1 ∧ Ended (exSA.runVertex 0 (some 3) sched) :=
+  (astar_speed_search_terminates_partial exSA exSA_edgeLocal exSA_metric (source := 0) (by decide)
+    (by decide)).1
 
 end
 
